@@ -805,6 +805,10 @@ fn c15_run(cfg: &Config) -> PropRun {
     // generated programs as continuations (they contain %str sections, strings, calls, ...)
     b_list.extend(crate::grammar::programs(if q { 1 } else { 2 }, false));
     b_list.extend(C15_STATEFUL_A.iter().map(|s| (*s).to_string()));
+    // A byte-order mark is one only at the very start of a source (C17); a continuation that
+    // starts with U+FEFF would be read as "BOM" when lexed alone and as an ordinary character
+    // when it follows A, so it is not a continuation in the sense of the property.
+    b_list.retain(|b| !b.starts_with('\u{feff}'));
     b_list.sort();
     b_list.dedup();
     // cache canon(B)
